@@ -358,6 +358,22 @@ def _skipped_beat_shape(sc, evs):
     return missing == [T] and resets == [last_resp_before + 2640] and any(b > T for b in beats) and all(any(0 <= r - b <= 240 for r in resps) for b in beats)
 
 
+def _started_once(evs):
+    """None of these scenarios shuts the object down: from the application's point of view monitoring is started once, at the end of the
+    handshake, and runs until the end of the run. A stop / start of the manager in between is the package's own doing and gives it no
+    fresh timeout: such pairs are removed before the run is judged."""
+    out, dropped = [], False
+    for k, e in enumerate(evs):
+        if e[0] == "stop" and k != len(evs) - 1:
+            dropped = True
+            continue
+        if e[0] == "start" and dropped:
+            dropped = False
+            continue
+        out.append(e)
+    return out
+
+
 def api_level(ctx, thorough):
     """the real AirTouch4/5 object over the real socket: which frame is the heartbeat, what counts as its response,
     when the connection is reset - judged by the same Spec monitor with the default 300 s / 330 s configuration"""
@@ -383,6 +399,11 @@ def api_level(ctx, thorough):
     # request and answers; the link stays up): heartbeats go on every 300 s, no reset
     for t0, hold in ((2399, 40), (2399, 360), (2390, 1900), (4799, 360), (2400, 240)):
         fixed.append(dict(inst=fullstack.INST, horizon=10000, faults=[(t0, "block"), (t0 + hold, "unblock")]))
+    # the application asks for updates of its own every 200 s .. 320 s while the console has gone silent: its requests are not heartbeat
+    # responses - the dead link is reset 330 s after the last response all the same
+    for pattern, first in (([None], 100), ([1, None], 2500), ([1, 8, None], 5001)):
+        for every in (1600, 2560):
+            fixed.append(dict(inst=fullstack.INST, version_answers=pattern, horizon=first + 9000, calls=[(first + k * every + 1, "updates") for k in range(6)]))
     for gen in (4, 5):
         for sc in fixed + [_api_scenario(rng) for _ in range(n)]:
             cases.append((gen, sc))
@@ -397,6 +418,7 @@ def api_level(ctx, thorough):
         if "initialised=True" in b["view"] and not any(e[0] == "start" for e in evs):
             # the object reports initialised, yet the heartbeat manager was never started: a heartbeat is due at once
             evs = [("conn", 1, 0), ("start", b.get("init_done_at") or 0)] + evs
+        evs = _started_once([e for e in evs if e[0] != "appreq"])
         runs.append(evs)
         lines.append("hbmon 2400 2640 %s" % _api_fmt(evs))
     verdicts = ctx.oracle(lines)
@@ -438,7 +460,9 @@ def replay(ctx, data):
         sc = dict(data["scenario"], inst=fullstack.INST)
         if sc.get("faults"):
             sc["faults"] = [tuple(f) for f in sc["faults"]]
-        evs = fullstack.run(data["gen"], sc)["hb_events"]
+        if sc.get("calls"):
+            sc["calls"] = [tuple(c) for c in sc["calls"]]
+        evs = _started_once([e for e in fullstack.run(data["gen"], sc)["hb_events"] if e[0] != "appreq"])
         v = ctx.oracle(["hbmon 2400 2640 %s" % _api_fmt(evs)])[0]
         print(evs, "-> c08 =", v)
         return 0 if v == "1" else 1
